@@ -702,3 +702,71 @@ Definition tfcase_signature (c : tfcase) : nat * nat * nat :=
   (length (flat_map tf_deletes (tfc_steps c)),
    length (filter (fun o => existsb (fun x => (x =? 1) || (x =? 6)) (tf_thr o)) (tfc_steps c)),
    length (tfc_threads c)).
+
+(* ------------------------------------------------------------------------------------------ *)
+(* ingress batch reader: buffer ownership (C13_Ingress) against the implementation              *)
+(* ------------------------------------------------------------------------------------------ *)
+From Dae Require Import C13_Ingress.
+
+Record iobs := mkIO { io_op : iop; io_slots : list (option nat * option nat);
+                      io_tasks : list (nat * nat * (nat * nat)); io_puts : list nat }.
+Record icase := mkICase { ic_slots : nat; ic_steps : list iobs }.
+Definition sl2 (a b : option nat) : option nat * option nat := (a, b).
+Definition tk4 (a b c d : nat) : nat * nat * (nat * nat) := (a, b, (c, d)).
+Definition dg (p v : nat) : nat * bool := (p, negb (v =? 0)).
+
+Definition islots_view (s : istate) : list (option nat * option nat) := map (fun sl => (s_buf sl, s_b0 sl)) (i_slots s).
+Definition itasks_view (s : istate) : list (nat * nat * (nat * nat)) :=
+  map (fun t => (t_buf t, t_expect t, ((if t_done t then 1 else 0), t_handled t))) (i_tasks s).
+
+Definition slot2_eqb (a b : option nat * option nat) : bool := optnat_eqb (fst a) (fst b) && optnat_eqb (snd a) (snd b).
+Definition task4_eqb (a b : nat * nat * (nat * nat)) : bool :=
+  (fst (fst a) =? fst (fst b)) && (snd (fst a) =? snd (fst b)) && (fst (snd a) =? fst (snd b)) && (snd (snd a) =? snd (snd b)).
+
+Fixpoint nodupb (l : list nat) : bool :=
+  match l with [] => true | x :: r => negb (existsb (Nat.eqb x) r) && nodupb r end.
+
+(* the property on an observation: a finished task handled its own datagram; no buffer has two owners *)
+Definition iobs_ok (slots : list (option nat * option nat)) (tasks : list (nat * nat * (nat * nat))) : bool :=
+  forallb (fun t => (fst (snd t) =? 0) || (snd (snd t) =? snd (fst t))) tasks
+  && nodupb (flat_map (fun t => if fst (snd t) =? 0 then [fst (fst t)] else []) tasks
+             ++ flat_map (fun sl => match fst sl with Some b => [b] | None => [] end) slots).
+
+(* at the end of a case (all tasks run, reader closed): nothing is owned any more and every buffer that was
+   ever seen came back exactly once *)
+Definition irest_ok (slots : list (option nat * option nat)) (tasks : list (nat * nat * (nat * nat))) (puts : list nat) : bool :=
+  forallb (fun sl => match fst sl with None => true | Some _ => false end) slots
+  && forallb (fun t => fst (snd t) =? 1) tasks
+  && nodupb puts
+  && forallb (fun t => existsb (Nat.eqb (fst (fst t))) puts) tasks.
+
+Record iacc := mkIA { ia_errs : list (nat * nat); ia_s : istate; ia_n : nat; ia_iputs : list nat }.
+
+Definition i_step_check (a : iacc) (o : iobs) : iacc :=
+  let s := ia_s a in
+  let s' := istep take_clears_buf ingress_guard_on_buf s (io_op o) in
+  let mputs := skipn (length (i_puts s)) (i_puts s') in
+  let n := ia_n a in
+  mkIA (ia_errs a
+        ++ (if list_eqb slot2_eqb (islots_view s') (io_slots o) && list_eqb task4_eqb (itasks_view s') (io_tasks o)
+               && list_eqb Nat.eqb mputs (io_puts o) then [] else [(n, 1)])
+        ++ (if iobs_ok (io_slots o) (io_tasks o) then [] else [(n, 2)])
+        ++ (if iobs_ok (islots_view s') (itasks_view s') then [] else [(n, 3)]))
+       s' (S n) (ia_iputs a ++ io_puts o).
+
+Definition icheck_case (c : icase) : list (nat * nat) :=
+  let a := fold_left i_step_check (ic_steps c) (mkIA [] (i_init (ic_slots c)) 0 []) in
+  let last := match rev (ic_steps c) with o :: _ => Some o | [] => None end in
+  first_of_each
+    (ia_errs a
+     ++ match last with
+        | Some o => if irest_ok (io_slots o) (io_tasks o) (ia_iputs a) then [] else [(ia_n a, 2)]
+        | None => [] end
+     ++ (if irest_ok (islots_view (ia_s a)) (itasks_view (ia_s a)) (i_puts (ia_s a)) then [] else [(ia_n a, 3)])).
+
+(* signature: tasks, reads that happened while some task was pending, invalid-address takes *)
+Definition icase_signature (c : icase) : nat * nat * nat :=
+  let last := match rev (ic_steps c) with o :: _ => length (io_tasks o) | [] => 0 end in
+  (last,
+   length (filter (fun o => match io_op o with IRead _ => existsb (fun t => fst (snd t) =? 0) (io_tasks o) | _ => false end) (ic_steps c)),
+   length (filter (fun o => match io_op o with ITake _ => negb (Nat.eqb (length (io_puts o)) 0) | _ => false end) (ic_steps c))).
